@@ -18,7 +18,7 @@ import sys
 import numpy as np
 
 sys.path.insert(0, os.path.dirname(os.path.abspath(__file__)))
-from _util import time_limit  # noqa
+from _util import time_limit, call_getters  # noqa
 
 req = json.load(sys.stdin)
 from lib import extshim  # noqa
@@ -59,6 +59,43 @@ def solve(fn):
         return {"status": "error:" + type(e).__name__, "message": str(e)[:400], "sets": []}
 
 
+SHARED = {}
+PREV = {}
+
+
+def collect(an):
+    out = solve(lambda: an.get_wyckoff_sets_conventional(return_parameters=True))
+    return {"status": out["status"], "sets": out["sets"], "flag": bool(an.get_has_free_wyckoff_parameters()),
+            "number": int(an.get_space_group_number())}
+
+
+def reuse(at, tol, cr, row, prior=None):
+    """ONE analyzer per tolerance is handed every crystal of this process through set_system() (after the flag, the sets
+    and the parameters of the previous crystal were asked); it must answer as the fresh analyzer did.  `prior`: replay of a
+    recorded sequence -- the shared analyzer is first created on that crystal."""
+    key = tol
+    try:
+        if prior is not None:
+            pa = Atoms(numbers=prior["numbers"], cell=prior["cell"], scaled_positions=prior["scaled_positions"], pbc=prior.get("pbc", True))
+            SHARED[key] = SymmetryAnalyzer(pa, symmetry_tol=tol) if tol is not None else SymmetryAnalyzer(pa)
+            collect(SHARED[key])
+            PREV[key] = prior
+        sh = SHARED.get(key)
+        if sh is None:
+            sh = SHARED[key] = SymmetryAnalyzer(at.copy(), symmetry_tol=tol) if tol is not None else SymmetryAnalyzer(at.copy())
+        else:
+            sh.set_system(at.copy())
+        got = collect(sh)
+        want = {k: row.get(k) for k in ("status", "sets", "flag", "number")}
+        diff = [k for k in want if got[k] != want[k]]
+        res = {"same": not diff, "differs_in": diff, "previous_crystal": PREV.get(key) if diff else None,
+               "reused": {k: got[k] for k in diff if k != "sets"}, "fresh": {k: want[k] for k in diff if k != "sets"}}
+    except Exception as e:  # noqa
+        res = {"same": False, "differs_in": ["raised " + type(e).__name__ + ": " + str(e)[:150]], "previous_crystal": PREV.get(key)}
+    PREV[key] = cr
+    return res
+
+
 rows = []
 for c in req.get("cases", []):
     cr = c["crystal"]
@@ -74,8 +111,11 @@ for c in req.get("cases", []):
             # call history on the one analyzer object: the reported parameters and the flag must not depend on what
             # was asked before (id % 3: 0 = parameters first; 1 = id and parameter-less sets first; 2 = flag first,
             # parameters, parameter-less sets, parameters again -- the LAST answer is the one examined)
-            hist = c["history"] if c.get("history") is not None else c["id"] % 3
+            hist = c["history"] if c.get("history") is not None else c["id"] % 4
             row["history"] = hist
+            if hist == 3 or isinstance(hist, list):
+                # order of public calls: a pseudo-random selection of the other public getters first (replay: the recorded list)
+                row["history"] = hist = call_getters(an, seed=c["id"], names=hist if isinstance(hist, list) else None)
             if hist == 1:
                 an.get_material_id()
                 an.get_wyckoff_sets_conventional(return_parameters=False)
@@ -91,6 +131,7 @@ for c in req.get("cases", []):
             if hist == 2 and flag_first != row["flag"]:
                 row["flag_unstable"] = True
             row["letters_original"] = sorted(set(str(l) for l in an.get_wyckoff_letters_original()))
+            row["reuse"] = reuse(at, c.get("tol"), cr, row, c.get("prior"))
             want = c.get("direct")
             if want == "auto":   # only when the normalizer search moved the target letter away (or the call failed)
                 want = row["status"] != "ok" or (c.get("target") is not None and c["target"] not in row["letters"])
